@@ -4,10 +4,11 @@
    Constant, no other Extract Inductive. *)
 Require Extraction.
 Require Import ExtrOcamlBasic.
-From FV Require Import Base.Serial Session.Window Link.SenderCredit Base.Bytes Codec.Value Codec.Enc Codec.Dec Codec.Spec Frame.Transfer Lib.LengthDelimited.
+From FV Require Import Base.Serial Session.Window Link.SenderCredit Base.Bytes Codec.Value Codec.Enc Codec.Dec Codec.Spec Frame.Transfer Lib.LengthDelimited Session.Disposition.
 Extraction Language OCaml.
 Separate Extraction
   Window.run Window.step Window.begun_for_oracle
   SenderCredit.lstep SenderCredit.linit
   Enc.enc_bytes Dec.from_slice Value.wf Spec.spec_valid
-  Transfer.wire_transfer Transfer.wire_other LengthDelimited.ld_feed_all.
+  Transfer.wire_transfer Transfer.wire_other LengthDelimited.ld_feed_all
+  Disposition.dstep.
